@@ -73,7 +73,13 @@ func Respell(t *rapid.T, texts []string, st TriviaStyle) string {
 	}
 	for i, tx := range texts {
 		if i > 0 {
-			sb.WriteString(DrawTrivia(t, st))
+			tr := DrawTrivia(t, st)
+			// a "/" token (Any type URLs) directly followed by a comment would lex as the start of a longer
+			// comment ("/" + "//;" = "///;") and the token would be lost: keep them apart
+			if strings.HasSuffix(texts[i-1], "/") && strings.HasPrefix(tr, "/") {
+				sb.WriteString(" ")
+			}
+			sb.WriteString(tr)
 		}
 		sb.WriteString(tx)
 	}
